@@ -2022,7 +2022,10 @@ class Kconfig(object):
 
         if normalize_unset:
             unset_match = re.compile(r"# {}([^ ]+) is not set".format(self.config_prefix)).match
-            lines = contents.splitlines()
+            # Not str.splitlines(): it also splits on form feed, U+2028 etc., which may occur inside string values
+            lines = contents.split("\n")
+            if lines and lines[-1] == "":
+                lines.pop()
             for idx, line in enumerate(lines):
                 match = unset_match(line)
                 if match:
